@@ -50,6 +50,7 @@ func runC05(c *Config, r *Report) {
 	c05R19(ic, r)
 	c05R20(ic, r)
 	c05R21(ic, r)
+	c05R22(ic, r)
 	c04R20(ic, r, "R05.15")
 	c05R11(ic, r)
 	c05R3(ic, r)
@@ -1681,5 +1682,117 @@ func c05R21(ic *IC, r *Report) {
 	}
 	if n < 3 {
 		r.Errorf("R05.21: only %d loops over struct fields going into the field types found in the look-up methods of itype", n)
+	}
+}
+
+func init() {
+	ruleText["R05.22"] = "the depth of a promoted method is compared with the depth of a field in the same unit: (*itype).methodDepth returns len(path)+c for the path of embedded fields leading to the method (c read from its return statements; a method of the type itself has an empty path), a field's index path has one element more than its depth; so every comparison in cfg of a value obtained from methodDepth with the length of a field index path has the form len(path)+k with k == c-1 - with k == c a method one level deeper than the field makes the selector 'ambiguous', and a method at the same depth silently wins"
+}
+
+// c05R22: D142 (round-7 report on C05, D22).
+func c05R22(ic *IC, r *Report) {
+	info := ic.Info
+	md := ic.fn(r, "itype.methodDepth")
+	cfgFn := ic.fn(r, "Interpreter.cfg")
+	if md == nil || cfgFn == nil {
+		return
+	}
+	// len(x)+k
+	lenPlus := func(e ast.Expr) (int, bool) {
+		e = unparen(e)
+		k := 0
+		if b, ok := e.(*ast.BinaryExpr); ok && (b.Op == token.ADD || b.Op == token.SUB) {
+			if l, ok := unparen(b.Y).(*ast.BasicLit); ok && l.Kind == token.INT {
+				fmt.Sscanf(l.Value, "%d", &k)
+				if b.Op == token.SUB {
+					k = -k
+				}
+				e = unparen(b.X)
+			}
+		}
+		c, ok := e.(*ast.CallExpr)
+		if !ok {
+			return 0, false
+		}
+		if id := identOf(c.Fun); id == nil || id.Name != "len" {
+			return 0, false
+		}
+		return k, true
+	}
+	c, okc := 0, true
+	first := true
+	ast.Inspect(md.Decl.Body, func(q ast.Node) bool {
+		rs, ok := q.(*ast.ReturnStmt)
+		if !ok || len(rs.Results) != 1 {
+			return true
+		}
+		if u, ok := unparen(rs.Results[0]).(*ast.UnaryExpr); ok && u.Op == token.SUB {
+			return true // -1: not found
+		}
+		k, ok := lenPlus(rs.Results[0])
+		if !ok {
+			okc = false
+			return true
+		}
+		if first {
+			c, first = k, false
+		} else if k != c {
+			okc = false
+		}
+		return true
+	})
+	if !okc || first {
+		r.Fail("R05.22", "itype.methodDepth/unit", ic.pos(md.Decl.Pos()), "undecided: the returns of (*itype).methodDepth are not all of the form len(path)+c with one c")
+		return
+	}
+	n := 0
+	ast.Inspect(cfgFn.Decl.Body, func(q ast.Node) bool {
+		as, ok := q.(*ast.AssignStmt)
+		if !ok || len(as.Lhs) != 1 || len(as.Rhs) != 1 || len(callsIn(info, as.Rhs[0], false, "interp.itype.methodDepth")) == 0 {
+			return true
+		}
+		id := identOf(as.Lhs[0])
+		if id == nil {
+			return true
+		}
+		d := info.ObjectOf(id)
+		// the comparisons of d in the enclosing block
+		path := enclosingPath(cfgFn.Decl.Body, as)
+		var blk *ast.BlockStmt
+		for i := len(path) - 1; i >= 0; i-- {
+			if b, ok := path[i].(*ast.BlockStmt); ok {
+				blk = b
+				break
+			}
+		}
+		if blk == nil {
+			return true
+		}
+		ast.Inspect(blk, func(z ast.Node) bool {
+			b, ok := z.(*ast.BinaryExpr)
+			if !ok {
+				return true
+			}
+			switch b.Op {
+			case token.LSS, token.LEQ, token.GTR, token.GEQ, token.EQL, token.NEQ:
+			default:
+				return true
+			}
+			if xid := identOf(b.X); xid == nil || info.ObjectOf(xid) != d {
+				return true
+			}
+			k, isLen := lenPlus(b.Y)
+			if !isLen {
+				return true
+			}
+			n++
+			r.Check(k == c-1, "R05.22", fmt.Sprintf("cfg/selector/method-vs-field-depth#%d/same-unit", n), ic.pos(b.Pos()), fmt.Sprintf("the method depth (len(path)%+d) is compared with len(index path)%+d", c, k),
+				fmt.Sprintf("cfg compares a method depth, which (*itype).methodDepth gives as len(path)%+d, with %s, i.e. len(index path)%+d: the index path of a field has one element more than its depth, so the comparison is off by one - a field at depth 1 and a method of the same name at depth 2 are reported as an ambiguous selector (compiled Go selects the field), and a method at the depth of the field silently wins", c, types.ExprString(b.Y), k))
+			return true
+		})
+		return true
+	})
+	if n < 2 {
+		r.Errorf("R05.22: only %d comparisons of a method depth with the length of a field index path found in cfg", n)
 	}
 }
